@@ -126,7 +126,11 @@ class Mangler:
         if k:
             self.ncards += 1
         f = self.fault
-        if f and not self.fired and f['board'] == self.board:
+        if f and not self.fired and f['board'] == self.board and f['kind'] == 'bad-ready':
+            if data.lower().endswith(f['line']):
+                self.fired = True
+                return b'I am confused\r\n'
+        elif f and not self.fired and f['board'] == self.board:
             if m and f['phase'] == 'auction' and self.ncalls == f['index']:
                 self.fired = True
                 return self._offend(f['kind'], m.group(1), True)
@@ -229,6 +233,15 @@ def run_session(cfg: Dict[str, Any]) -> Dict[str, Any]:
     sched = baton.Sched(policy, max_blocks=cfg.get('max_blocks', 300000), inject=inject,
                         record_blocks=cfg.get('record_blocks', True))
     outpath = pathlib.Path(cfg['outdir']) / f'out-{os.getpid()}-{cfg.get("tag", 0)}.json'
+    at_stuck: Dict[str, Any] = {}
+
+    def observe():
+        try:
+            at_stuck['file'] = outpath.read_text()
+        except OSError:
+            at_stuck['file'] = None
+        at_stuck['main_alive'] = any(t.name == 'main' and t.state != 'done' for t in sched.threads)
+    sched.on_stuck = observe
     if outpath.exists():
         outpath.unlink()
     settings = cfg.get('settings_obj')
@@ -405,6 +418,7 @@ def run_session(cfg: Dict[str, Any]) -> Dict[str, Any]:
         outpath.unlink()
     except OSError:
         pass
+    result['at_stuck'] = at_stuck
     result['clock'] = sched.clock
     result['npoints'] = {t.name: t.npoints for t in sched.threads}
     return result
